@@ -1,7 +1,7 @@
 (** C02 — Joining a task returns that task's own result once it finishes.
     (positive theorems for one pool are added by Sched/PoolProofs; this file holds what is
     established so far) *)
-From OCV Require Import Cases.Pool Sched.Join Sched.JoinProofs Sched.JoinHandle.
+From OCV Require Import Cases.Pool Sched.Join Sched.JoinProofs Sched.JoinHandle Sched.CoWait.
 From OCV Require Import Sched.PoolWf Sched.PoolRun Sched.PoolProofs Sched.PoolInv Sched.PoolExample.
 Open Scope Z_scope.
 
@@ -79,6 +79,23 @@ Proof. exact c02_model1. Qed.
 Example C02_nonvacuous : wf_pool1 0 ex_cfg ex_ops = true.
 Proof. exact ex_wf. Qed.
 
+(** * A wait made from inside a task (the caller is a coroutine): it runs queued tasks inline *)
+Theorem C02_co_wait_returns_own_result : forall q target r fuel,
+  cw_lookup target q = Some r -> (List.length (before target q) <= fuel)%nat ->
+  exists s', co_wait fuel target {| cw_queue := q; cw_results := []; cw_ran := [] |} = (CWVal r, s')
+             /\ cw_ran s' = before target q.
+Proof. exact co_wait_returns_own_result. Qed.
+
+Theorem C02_co_wait_finished_runs_nothing : forall fuel target r s,
+  cw_lookup target (cw_results s) = Some r -> co_wait fuel target s = (CWVal r, s).
+Proof. exact co_wait_finished_runs_nothing. Qed.
+
+Theorem C02_co_wait_timeout_only_if_absent : forall q target fuel s',
+  (List.length q <= fuel)%nat ->
+  co_wait fuel target {| cw_queue := q; cw_results := []; cw_ran := [] |} = (CWTimedOut, s') ->
+  cw_lookup target q = None.
+Proof. exact co_wait_timeout_only_if_absent. Qed.
+
 Print Assumptions C02_refuted_result_in_stealing_pool.
 Print Assumptions C02_finished_task_never_times_out.
 Print Assumptions C02_timeout_only_without_result.
@@ -92,3 +109,6 @@ Print Assumptions C02_own_result_protocol.
 Print Assumptions C02_woken_means_result.
 Print Assumptions C02_refuted_old_protocol.
 Print Assumptions C02_single_pool.
+Print Assumptions C02_co_wait_returns_own_result.
+Print Assumptions C02_co_wait_finished_runs_nothing.
+Print Assumptions C02_co_wait_timeout_only_if_absent.
